@@ -233,10 +233,10 @@ def r2_mnemonics(F, R):
         hit.setdefault(kty, set()).add(iv)
         if iv != v:
             R.bad(f"type_from|{v}", f"Inst::{v} is classified as {short(kty)}::{iv}", loc(arm))
-        elif tk[0] == "UpperArith" and v != "Lui":
-            R.bad(f"type_from|{v}", f"Inst::{v} classified as UpperArith (only lui shifts its immediate)", loc(arm))
-        elif v == "Lui" and tk[0] != "UpperArith":
-            R.bad(f"type_from|{v}", f"lui classified as {tk[0]}: its immediate would not be shifted into the upper 20 bits", loc(arm))
+        elif tk[0] == "UpperArith" and v not in UTYPE:
+            R.bad(f"type_from|{v}", f"Inst::{v} classified as UpperArith, but it is not a U-type instruction ({sorted(UTYPE)} are): its immediate would be shifted by 12", loc(arm))
+        elif v in UTYPE and tk[0] != "UpperArith":
+            R.bad(f"type_from|{v}", f"{v.lower()} is a U-type instruction (`{v.lower()} rd, imm20`) but is classified as {tk[0]}: `{v.lower()} t0, 1` does not parse / its immediate is not placed in the upper 20 bits", loc(arm))
         else:
             R.ok(f"type_from|{v}", detail=f"Inst::{v} -> Type::{tk[0]}({short(kty)}::{iv})", where=loc(arm))
     for v in variants:
@@ -340,6 +340,9 @@ def outcome_nodes(sym, ctors):
     if isinstance(sym, dict) and "err" in sym:
         return "err", []
     return "other", []
+
+
+UTYPE = set(json.load(open(os.path.join(os.path.dirname(os.path.dirname(os.path.abspath(__file__))), 'reference', 'rv32im_formats.json')))['u_type']['instructions'])
 
 
 def strip_q(tokens):
